@@ -1,6 +1,7 @@
 package yqlib
 
 import (
+	"bytes"
 	"errors"
 	"io"
 	"strings"
@@ -256,4 +257,56 @@ func VerifC19ExitStatusAlias() {
 	verifAssert(printer.PrintResults(res) == nil, "C19/print-error")
 	verifAssert(printer.PrintedAnything() == truthy, "C19/exit-status-ignores-what-an-alias-stands-for")
 	verifCover("C19/alias/end")
+}
+
+// VerifC19EveryFileEvaluated: a successful run (no error) over several YAML files has evaluated and printed every
+// document of every file: the number of documents the evaluator reports, and the number of results the printer was
+// handed for `.`, equal the sums of what each file gives on its own — a file that holds only comments, a separator
+// or nothing included. One decoder serves all files, as in the command.
+func VerifC19EveryFileEvaluated() {
+	nfiles := 2 + verifChoice("files", 2)
+	var picks []int
+	for i := 0; i < nfiles; i++ {
+		picks = append(picks, verifChoice("file"+verifItoa(int64(i)), len(c10Texts)))
+	}
+	run := func(texts []string) (docs uint, printed int, ok bool) {
+		var events []string
+		var out bytes.Buffer
+		printer := NewPrinter(&c10Encoder{events: &events}, NewSinglePrinterWriter(&out))
+		ev := NewStreamEvaluator()
+		dec := NewYamlDecoder(NewDefaultYamlPreferences())
+		exp := vParse(".")
+		for i, t := range texts {
+			n, err := ev.Evaluate("f"+verifItoa(int64(i))+".yml", strings.NewReader(t), exp, printer, dec)
+			if err != nil {
+				return 0, 0, false
+			}
+			docs += n
+		}
+		for _, e := range events {
+			if strings.HasPrefix(e, "NODE ") {
+				printed++
+			}
+		}
+		return docs, printed, true
+	}
+	var texts []string
+	wantDocs, wantPrinted := uint(0), 0
+	allOK := true
+	for _, p := range picks {
+		texts = append(texts, c10Texts[p])
+		d, pr, ok := run([]string{c10Texts[p]})
+		allOK = allOK && ok
+		wantDocs += d
+		wantPrinted += pr
+	}
+	docs, printed, ok := run(texts)
+	verifAssert(ok == allOK, "C19/success-of-a-run-depends-on-the-neighbour-files")
+	if !ok || !allOK {
+		verifCover("C19/everyfile/error")
+		return
+	}
+	verifAssert(docs == wantDocs, "C19/exit-0-although-a-document-was-not-evaluated")
+	verifAssert(printed == wantPrinted, "C19/exit-0-although-a-result-was-not-printed")
+	verifCover("C19/everyfile/end")
 }
